@@ -474,6 +474,31 @@ def r30(ctx: Ctx) -> RuleReport:
                             good = (f"{l_role} != '/'", True) in facts or (f"{l_role} == '/'", False) in facts
                             rep.add(f'{fi.fq}: the concept branch is never rewritten', fi.loc(n), 'ok' if good else 'violation',
                                     '' if good else f'`{norm(n)[:60]}` can run on the concept branch: a concept spelled like a variable would be renamed')
+                            # shape of the new reference: varmap[ref] (+ tilde + alignment of the same atom)
+                            parts = _concat_parts(v)
+                            unp = None
+                            for m in ast.walk(loop):
+                                if isinstance(m, ast.Assign) and isinstance(m.targets[0], ast.Tuple) and len(m.targets[0].elts) == 3 \
+                                        and isinstance(m.value, ast.Call) and isinstance(m.value.func, ast.Attribute) \
+                                        and m.value.func.attr == 'partition' and norm(m.value.func.value) == l_tgt \
+                                        and try_fold(m.value.args[0]) == (True, '~'):
+                                    unp = [norm(e) for e in m.targets[0].elts]
+                            shape_ok = False
+                            if len(parts) == 1 and isinstance(parts[0], ast.Subscript) and norm(parts[0].slice) == l_tgt:
+                                shape_ok = True          # plain lookup of the whole atom (R11 judges the key)
+                            if unp and len(parts) == 3 and isinstance(parts[0], ast.Subscript) and norm(parts[0].slice) == unp[0] \
+                                    and norm(parts[1]) == unp[1] and norm(parts[2]) == unp[2]:
+                                shape_ok = True
+                            uses_replace = any(isinstance(x, ast.Call) and isinstance(x.func, ast.Attribute) and x.func.attr == 'replace'
+                                               for x in ast.walk(v))
+                            if uses_replace:
+                                rep.violation(f'{fi.fq}: a reference is rewritten as new name + its own alignment suffix', fi.loc(n),
+                                              f'`{norm(n)[:70]}`: str.replace rewrites every occurrence of the old name, including inside '
+                                              f'the alignment suffix (variable `e` with alignment `~e.1`)')
+                            elif shape_ok:
+                                rep.ok(f'{fi.fq}: a reference is rewritten as new name + its own alignment suffix', fi.loc(n))
+                            else:
+                                raise AnalysisError(f'R30: rewrite of a reference has an unrecognised shape: {norm(n)[:80]}')
                 rep.add(f'{fi.fq}: target slot is the (possibly rewritten) target', fi.loc(a), 'ok' if norm(o_tgt) == l_tgt else 'violation', norm(o_tgt))
             else:
                 # target passed through except by recursion
